@@ -151,6 +151,8 @@ def kx(n):
             return 'KIndex (%s) %d' % (kx(n.value), s.value)
         if isinstance(s, ast.Slice) and s.step is None and all(isinstance(b, ast.Constant) and isinstance(b.value, int) and b.value >= 0 for b in (s.lower, s.upper)):
             return 'KSlice (%s) %d %d' % (kx(n.value), s.lower.value, s.upper.value)
+        if isinstance(s, ast.Slice) and s.step is None and s.upper is None and s.lower is not None:
+            return 'KDrop (%s) (%s)' % (kx(s.lower), kx(n.value))
         return 'KAtom %s' % coq_str(ast.unparse(n))
     if isinstance(n, ast.Call):
         f = call_name(n.func)
@@ -196,6 +198,13 @@ def exec_block(stmts, env, rest=()):
                 else: e2[x.id] = ast.Subscript(value=copy.deepcopy(rhs), slice=ast.Constant(value=i), ctx=ast.Load())
         else:
             raise Refusal('assignment target %s (%s)' % (type(t).__name__, where(st)))
+        return exec_block(tail, e2)
+    if isinstance(st, ast.AugAssign):
+        if not isinstance(st.target, ast.Name): raise Refusal('augmented assignment target (%s)' % where(st))
+        cur = env.get(st.target.id, ast.Name(id=st.target.id, ctx=ast.Load()))
+        e2 = dict(env)
+        e2[st.target.id] = ast.fix_missing_locations(ast.copy_location(
+            ast.BinOp(left=copy.deepcopy(cur), op=st.op, right=subst(st.value, env)), st))
         return exec_block(tail, e2)
     if isinstance(st, ast.If):
         c = kx(subst(st.test, env))
@@ -267,6 +276,72 @@ def comp_filter(fn, target='col', seq='columnlist'):
     return hits[0]
 
 
+def fold_kernels(fn, itertext='enumerate(polygon)'):
+    """A function that accumulates over `for j, p1 in enumerate(polygon)`: (step tree, epilogue tree, glue).
+    step: the loop body executed on free names, returning the list of the augmented names' new values
+    (sorted by name); epilogue: the statements after the loop (the `else` branch of `if n < 3` for the
+    centroid); glue: the function text with the loop body and docstring removed (pinned as text)."""
+    loops = [n for n in ast.walk(fn) if isinstance(n, ast.For)]
+    if len(loops) != 1 or ast.unparse(loops[0].iter) != itertext or ast.unparse(loops[0].target) != '(j, p1)':
+        raise Refusal('%s: loop header changed' % fn.name)
+    loop = loops[0]
+    aug = sorted(set(st.target.id for st in loop.body if isinstance(st, ast.AugAssign) and isinstance(st.target, ast.Name)))
+    if not aug: raise Refusal('%s: no accumulator' % fn.name)
+    ret = ast.Return(value=ast.List(elts=[ast.Name(id=a, ctx=ast.Load()) for a in aug], ctx=ast.Load()))
+    step = exec_block(list(loop.body) + [ast.fix_missing_locations(ast.copy_location(ret, loop))], {})
+    # statements that follow the loop: in the same block, then in the enclosing blocks up to the function body
+    def after(block):
+        for i, st in enumerate(block):
+            if st is loop: return list(block[i + 1:]), True
+            for sub in ('body', 'orelse'):
+                if hasattr(st, sub) and isinstance(getattr(st, sub), list) and not isinstance(st, ast.For):
+                    r, found = after(getattr(st, sub))
+                    if found: return r + list(block[i + 1:]), True
+        return [], False
+    rest, found = after(fn.body)
+    if not found: raise Refusal('%s: loop not found in the body' % fn.name)
+    epi = exec_block(rest, {})
+    g = copy.deepcopy(fn)
+    for n in ast.walk(g):
+        if isinstance(n, ast.For): n.body = [ast.Pass()]
+    if g.body and is_docstring(g.body[0]): g.body = g.body[1:]
+    glue = [l.rstrip() for l in ast.unparse(ast.fix_missing_locations(g)).splitlines()]
+    return step, epi, '[' + '; '.join(coq_str(l) for l in glue) + ']', aug
+
+
+def first_loop(fn):
+    """the first `for` of fn, looking into if/elif branches but not into other loops"""
+    def look(block):
+        for st in block:
+            if isinstance(st, ast.For): return st
+            if isinstance(st, ast.If):
+                r = look(st.body) or look(st.orelse)
+                if r is not None: return r
+        return None
+    r = look(fn.body)
+    if r is None: raise Refusal('%s: no loop' % fn.name)
+    return r
+
+
+def iter_kx(fn):
+    """which list the (first) loop of fn runs over, as an expression tree; a filtering comprehension is an atom"""
+    it = first_loop(fn).iter
+    if isinstance(it, ast.ListComp): return 'KAtom %s' % coq_str(ast.unparse(it))
+    return kx(it)
+
+
+def glue_text(fn, leaf_loops=True):
+    """the function text without docstring; the bodies of innermost loops (translated as kernels) -> pass"""
+    g = copy.deepcopy(fn)
+    if g.body and is_docstring(g.body[0]): g.body = g.body[1:]
+    if leaf_loops:
+        for n in ast.walk(g):
+            if isinstance(n, ast.For) and not any(isinstance(m, ast.For) for b in n.body for m in ast.walk(b)):
+                n.body = [ast.Pass()]
+    lines = [l.rstrip() for l in ast.unparse(ast.fix_missing_locations(g)).splitlines()]
+    return '[' + '; '.join(coq_str(l) for l in lines) + ']'
+
+
 def translate(repo_sources):
     """repo_sources: dict name -> source text for 'mulgrids.py', 't2grids.py', 'geometry.py'.
     Returns the text of Gen/GenKernels.v."""
@@ -299,6 +374,36 @@ def translate(repo_sources):
                ('gen_filter_connection_names', sb)]
     for nm, fn in filters:
         out[nm] = 'KRet (%s)' % kx(comp_filter(fn))
+    glue = {}
+    for nm in ('polygon_area', 'polygon_centroid'):
+        step, epi, g, aug = fold_kernels(find_def(geom.body, nm))
+        out['gen_%s_step' % nm] = step
+        out['gen_%s_final' % nm] = epi
+        glue['gen_%s_glue' % nm] = g
+    iters = {'gen_iter_underground_blocks': iter_kx(find_def(tg.body, 'add_underground_blocks')),
+             'gen_iter_atmosphere_blocks': iter_kx(find_def(tg.body, 'add_atmosphereblocks')),
+             'gen_iter_add_connections': iter_kx(find_def(tg.body, 'add_connections')),
+             'gen_iter_vertical': iter_kx(find_def(tg.body, 'add_vertical_layer_connections')),
+             'gen_iter_horizontal': iter_kx(find_def(tg.body, 'add_horizontal_layer_connections')),
+             'gen_iter_name_list_layers': iter_kx(find_def(mg.body, 'block_name_list_layer_column')),
+             'gen_iter_connection_names_layers': iter_kx(sb)}
+    for nm, fn, leaf in [('fromgeo', find_def(tg.body, 'fromgeo'), True), ('add_blocks', find_def(tg.body, 'add_blocks'), True),
+                         ('add_atmosphereblocks', find_def(tg.body, 'add_atmosphereblocks'), True),
+                         ('add_underground_blocks', find_def(tg.body, 'add_underground_blocks'), True),
+                         ('add_connections', find_def(tg.body, 'add_connections'), False),
+                         ('add_vertical_layer_connections', find_def(tg.body, 'add_vertical_layer_connections'), True),
+                         ('add_horizontal_layer_connections', find_def(tg.body, 'add_horizontal_layer_connections'), True),
+                         ('setup_block_name_index', find_def(mg.body, 'setup_block_name_index'), False),
+                         ('block_name_list_layer_column', find_def(mg.body, 'block_name_list_layer_column'), False),
+                         ('block_name_list_dmplex', find_def(mg.body, 'block_name_list_dmplex'), False),
+                         ('get_tilt_vector', find_def(mg.body, 'get_tilt_vector'), False),
+                         # the setters that keep the announced lists current
+                         ('set_atmosphere_type', find_def(mg.body, 'set_atmosphere_type'), False),
+                         ('set_convention', find_def(mg.body, 'set_convention'), False),
+                         ('set_block_order', find_def(mg.body, 'set_block_order'), False),
+                         ('copy_layers_from', find_def(mg.body, 'copy_layers_from'), False),
+                         ('setup_block_connection_name_index', sb, True)]:
+        glue['gen_glue_' + nm] = glue_text(fn, leaf)
     lines = ['(* generated by tools/props/c04_translate.py from the current mulgrids.py / t2grids.py / geometry.py: do not edit *)',
              'From Coq Require Import String List ZArith QArith.',
              'From P Require Import Kx.',
@@ -307,6 +412,10 @@ def translate(repo_sources):
              'Open Scope Q_scope.', '']
     for nm in sorted(out):
         lines.append('Definition %s : kt :=\n %s.\n' % (nm, out[nm]))
+    for nm in sorted(iters):
+        lines.append('Definition %s : kx :=\n %s.\n' % (nm, iters[nm]))
+    for nm in sorted(glue):
+        lines.append('Definition %s : list string :=\n %s.\n' % (nm, glue[nm]))
     return '\n'.join(lines)
 
 
